@@ -882,10 +882,8 @@ REGION_ACT_HERE_DOC = 'c10-act-here-doc-loses-empty-and-comment-lines'
 # excludes them and the bound says so); as soon as the file mentions the region (as a finding: the driver excludes it
 # and prints KNOWN-FINDING; in a `fixed` record: nothing is excluded) the full obligation is registered.
 # Remove a name from this tuple when its defect is repaired in /repo.
-PENDING_REGIONS = (  # (the two regions of the here-document / ignored-exit-code kernels are resolved)
-    'c10-stderr-from-failing-program-stderr-not-utf8',  # REGION_STDERR_FROM_RAW, reported with the raw-output kernels
-    'c10-exit-code-failure-message-stderr-not-utf8',  # REGION_EXIT_CODE_MSG_RAW, reported with the raw-output kernels
-)
+PENDING_REGIONS = ()  # all resolved: here-document listed; ignored-exit-code repaired (bda2ebc); the two raw-output regions
+#                        (`-stderr-from`, `exit-code` failure message: stderr that is not UTF-8) repaired by f5a8cf1
 
 _KF_TEXT = []
 
